@@ -43,13 +43,15 @@ Alloc(st, o) == [st |-> [st EXCEPT !.heap = Append(@, o)], id |-> Len(st.heap) +
 Obj(st, v) == st.heap[v.id]
 IsList(st, v) == v.t = "ref" /\ st.heap[v.id].t = "list"
 IsDict(st, v) == v.t = "ref" /\ st.heap[v.id].t = "dict"
+IsObj(st, v)  == v.t = "ref" /\ st.heap[v.id].t = "obj"
+FieldIdx(o, n) == IF \E i \in 1..Len(o.e) : o.e[i][1] = n THEN CHOOSE i \in 1..Len(o.e) : o.e[i][1] = n ELSE 0
 
 Universe == {"len", "list", "tuple", "range", "bool", "type", "min", "max", "any", "all", "reversed",
              "enumerate", "sorted", "zip", "int", "True", "False", "None", "dict", "str", "repr", "print", "fail",
              "getattr", "hasattr", "dir", "hash", "float", "set", "abs", "chr", "ord", "bytes"}
 Modelled == {"len", "list", "tuple", "range", "bool", "type", "min", "max", "any", "all", "reversed",
              "enumerate", "sorted", "int", "True", "False", "None"}
-Predeclared == {"trace", "boom"}
+Predeclared == {"trace", "boom", "obj"}
 
 \* ---------------------------------------------------------------- static helpers: names bound in a block
 RECURSIVE TargetNames(_)
@@ -103,7 +105,7 @@ Truth(st, v) ==
     [] v.t = "int"  -> v.v # 0
     [] v.t = "str"  -> v.v # ""
     [] v.t \in {"tuple", "range"} -> v.e # <<>>
-    [] v.t = "ref"  -> st.heap[v.id].e # <<>>
+    [] v.t = "ref"  -> st.heap[v.id].t = "obj" \/ st.heap[v.id].e # <<>>
     [] OTHER -> TRUE
 
 TypeName(st, v) ==
@@ -150,6 +152,7 @@ Deep(st, v, fuel) ==
   ELSE CASE v.t = "tuple" -> [t |-> "tuple", e |-> [i \in 1..Len(v.e) |-> Deep(st, v.e[i], fuel - 1)]]
          [] v.t = "ref" -> LET o == st.heap[v.id] IN
               IF o.t = "list" THEN [t |-> "list", e |-> [i \in 1..Len(o.e) |-> Deep(st, o.e[i], fuel - 1)]]
+              ELSE IF o.t = "obj" THEN [t |-> "obj", e |-> [i \in 1..Len(o.e) |-> <<o.e[i][1], Deep(st, o.e[i][2], fuel - 1)>>]]
               ELSE [t |-> "dict", e |-> [i \in 1..Len(o.e) |-> <<Deep(st, o.e[i][1], fuel - 1), Deep(st, o.e[i][2], fuel - 1)>>]]
          [] v.t = "range" -> [t |-> "range", len |-> Len(v.e)]
          [] v.t = "fn" -> [t |-> "fn", name |-> v.name]
@@ -260,6 +263,9 @@ Eval(e, fr, st) ==
          IF Failed(a.st) THEN a
          ELSE CASE IsList(a.st, a.v) /\ e.name \in {"append", "extend", "pop", "clear", "insert", "index", "remove"} -> R(a.st, VBound(a.v.id, e.name))
                 [] IsDict(a.st, a.v) /\ e.name \in {"get", "setdefault", "pop", "keys", "values", "items", "clear", "update", "popitem"} -> R(a.st, VBound(a.v.id, e.name))
+                [] IsObj(a.st, a.v) ->
+                     LET o == a.st.heap[a.v.id] j == FieldIdx(o, e.name) IN
+                     IF j = 0 THEN RFail(a.st, "attr", e.p) ELSE R(a.st, o.e[j][2])
                 [] a.v.t \in {"int", "none", "bool", "fn", "tuple"} -> RFail(a.st, "attr", e.p)
                 [] OTHER -> RFail(a.st, "unsupported", e.p)
     [] e.k = "lambda" -> MakeFn("lambda", e.params, <<[k |-> "return", p |-> e.p, has |-> TRUE, x |-> e.body]>>, e.p, fr, st, e.p)
@@ -382,6 +388,9 @@ CallBuiltin(name, recv, call, pos, st) ==
                                                  <<K[i][1], Deep(st, K[i][2], 6)>>]])],
          IF n > 0 THEN args[1] ELSE VNone)
   ELSE IF name = "boom" THEN RFail(st, "boom", pos)
+  ELSE IF name = "obj" THEN
+       (IF n > 0 \/ (call.ss.some /\ call.ss.v # <<>>) THEN RFail(st, "unsupported", pos)
+        ELSE LET x == Alloc(st, [t |-> "obj", e |-> call.named, iters |-> 0]) IN R(x.st, VRef(x.id)))
   ELSE IF ~plain THEN RFail(st, "unsupported", pos)
   ELSE CASE name = "len" /\ n = 1 ->
               (IF args[1].t = "str" THEN RFail(st, "unsupported", pos)
@@ -458,6 +467,15 @@ AssignTo(tg, v, fr, st) ==
                      [] IsDict(b.st, a.v) /\ b.v.t = "ref" -> Err(b.st, "unhashable", tg.p)
                      [] a.v.t \in {"tuple", "int", "none", "bool", "str"} -> Err(b.st, "setindex-type", tg.p)
                      [] OTHER -> Err(b.st, "unsupported", tg.p)
+    [] tg.k = "dot" ->
+         LET a == Eval(tg.x, fr, st) IN
+         IF Failed(a.st) THEN a.st
+         ELSE IF IsObj(a.st, a.v)
+              THEN LET o == a.st.heap[a.v.id] j == FieldIdx(o, tg.name) IN
+                   IF j = 0 THEN [a.st EXCEPT !.heap[a.v.id].e = Append(@, <<tg.name, v>>)]
+                   ELSE [a.st EXCEPT !.heap[a.v.id].e[j] = <<tg.name, v>>]
+              ELSE IF a.v.t \in {"int", "none", "bool", "tuple", "str", "fn"} \/ IsList(a.st, a.v) \/ IsDict(a.st, a.v) THEN Err(a.st, "setfield-type", tg.p)
+              ELSE Err(a.st, "unsupported", tg.p)
     [] OTHER -> Err(st, "unsupported", <<0, 0>>)
 
 \* ---------------------------------------------------------------- statements
@@ -546,6 +564,18 @@ ExecStmt(s, fr, st) ==
                                ELSE LET c == BinOp(b.st, op, cur.v, b.v, s.p) IN
                                     IF Failed(c.st) THEN Flow(c.st, "next", VNone)
                                     ELSE Flow(AssignTo([k |-> "index", p |-> s.lhs.p, x |-> lit(x.v), y |-> lit(y.v)], c.v, fr, c.st), "next", VNone)
+           [] s.lhs.k = "dot" ->       \* x.f op= y: x is evaluated once; load x.f, evaluate y, apply, store
+                LET x == Eval(s.lhs.x, fr, st) IN
+                IF Failed(x.st) THEN Flow(x.st, "next", VNone)
+                ELSE LET lit(v) == [k |-> "val", v |-> v]
+                         cur == Eval([k |-> "dot", p |-> s.lhs.p, x |-> lit(x.v), name |-> s.lhs.name], fr, x.st) IN
+                     IF Failed(cur.st) THEN Flow(cur.st, "next", VNone)
+                     ELSE LET b == Eval(s.rhs, fr, cur.st) IN
+                          IF Failed(b.st) THEN Flow(b.st, "next", VNone)
+                          ELSE IF op = "+" /\ IsList(b.st, cur.v) THEN Flow(Err(b.st, "unsupported", s.p), "next", VNone)
+                          ELSE LET c == BinOp(b.st, op, cur.v, b.v, s.p) IN
+                               IF Failed(c.st) THEN Flow(c.st, "next", VNone)
+                               ELSE Flow(AssignTo([k |-> "dot", p |-> s.lhs.p, x |-> lit(x.v), name |-> s.lhs.name], c.v, fr, c.st), "next", VNone)
            [] OTHER -> Flow(Err(st, "unsupported", s.p), "next", VNone)
     [] s.k = "load" ->
          \* the modelled loader knows one module; loaded names are file-local (not exported as globals)
